@@ -364,6 +364,22 @@ theorem enterOp_inv (s0 : St) (e : Cont) (hs0 : inLoop s0 = false) (hc : Consist
     ∃ Y', Inv s0 e (enterOp pre args c st) Y' :=
   enterWith_inv s0 e hs0 hc st Y h hY true pre args c
 
+theorem enterChecked_inv (s0 : St) (e : Cont) (hs0 : inLoop s0 = false) (hc : Consistent s0.vm)
+    (st : St) (Y : List Cont) (h : Inv s0 e st Y) (hY : Y ≠ []) (pre args : Nat) (c : Callee) :
+    ∃ Y', Inv s0 e (enterChecked pre args c st) Y' := by
+  unfold enterChecked
+  split
+  · exact enter_inv s0 e hs0 hc st Y h hY pre args c
+  · exact raise_inv_of s0 e hs0 hc st Y h hY true _ rfl rfl rfl rfl
+
+theorem enterOpChecked_inv (s0 : St) (e : Cont) (hs0 : inLoop s0 = false) (hc : Consistent s0.vm)
+    (st : St) (Y : List Cont) (h : Inv s0 e st Y) (hY : Y ≠ []) (pre args : Nat) (c : Callee) :
+    ∃ Y', Inv s0 e (enterOpChecked pre args c st) Y' := by
+  unfold enterOpChecked
+  split
+  · exact enterOp_inv s0 e hs0 hc st Y h hY pre args c
+  · exact raise_inv_of s0 e hs0 hc st Y h hY true _ rfl rfl rfl rfl
+
 theorem enterDirect_inv (s0 : St) (e : Cont) (hs0 : inLoop s0 = false) (hc : Consistent s0.vm)
     (st : St) (Y : List Cont) (h : Inv s0 e st Y) (hY : Y ≠ []) (pre : Nat) (ok : Bool) :
     ∃ Y', Inv s0 e (enterDirect pre ok st) Y' := by
@@ -378,6 +394,15 @@ theorem enterDirect_inv (s0 : St) (e : Cont) (hs0 : inLoop s0 = false) (hc : Con
     simp only [enterDirect]
     exact raise_inv_of s0 e hs0 hc st Y h hY true _ (by simp [truncate]) (by simp [truncate])
       (by simp [truncate]) (by simp [truncate])
+
+theorem enterDirectChecked_inv (s0 : St) (e : Cont) (hs0 : inLoop s0 = false)
+    (hc : Consistent s0.vm) (st : St) (Y : List Cont) (h : Inv s0 e st Y) (hY : Y ≠ [])
+    (pre : Nat) (ok : Bool) :
+    ∃ Y', Inv s0 e (enterDirectChecked pre ok st) Y' := by
+  unfold enterDirectChecked
+  split
+  · exact enterDirect_inv s0 e hs0 hc st Y h hY pre ok
+  · exact raise_inv_of s0 e hs0 hc st Y h hY true _ rfl rfl rfl rfl
 
 theorem nested_inv (s0 : St) (e : Cont) (hs0 : inLoop s0 = false) (hc : Consistent s0.vm)
     (st : St) (Y : List Cont) (h : Inv s0 e st Y) (hY : Y ≠ []) (args a : Nat) :
@@ -438,9 +463,9 @@ theorem step_inv_loop (s0 : St) (e : Cont) (hs0 : inLoop s0 = false) (hc : Consi
   | cons f rest =>
   have hbase : st.vm.base = f.base := by rw [h.base, hstk]; rfl
   cases ev with
-  | enter pre args c => exact enter_inv s0 e hs0 hc st _ h hY pre args c
-  | enterOp pre args c => exact enterOp_inv s0 e hs0 hc st _ h hY pre args c
-  | enterDirect pre ok => exact enterDirect_inv s0 e hs0 hc st _ h hY pre ok
+  | enter pre args c => exact enterChecked_inv s0 e hs0 hc st _ h hY pre args c
+  | enterOp pre args c => exact enterOpChecked_inv s0 e hs0 hc st _ h hY pre args c
+  | enterDirect pre ok => exact enterDirectChecked_inv s0 e hs0 hc st _ h hY pre ok
   | newFrame n =>
     refine ⟨_, inv_of_same s0 e st _ _ h hY ?_ ?_ ?_ ?_ ?_ ⟨x, Y1, Or.inl rfl⟩⟩
     · simp [step, hin]
@@ -610,9 +635,9 @@ theorem step_inv_native (s0 : St) (e : Cont) (hs0 : inLoop s0 = false) (hc : Con
   have hminr : hasLoop Y1 = false → st.vm.minRegs = s0.vm.minRegs := by
     intro hl; exact h.minr (by simpa [hasLoop] using hl)
   cases ev with
-  | enter pre args c => exact enter_inv s0 e hs0 hc st _ h hY pre args c
-  | enterOp pre args c => exact enterOp_inv s0 e hs0 hc st _ h hY pre args c
-  | enterDirect pre ok => exact enterDirect_inv s0 e hs0 hc st _ h hY pre ok
+  | enter pre args c => exact enterChecked_inv s0 e hs0 hc st _ h hY pre args c
+  | enterOp pre args c => exact enterOpChecked_inv s0 e hs0 hc st _ h hY pre args c
+  | enterDirect pre ok => exact enterDirectChecked_inv s0 e hs0 hc st _ h hY pre ok
   | nativeRet ok =>
     cases ok with
     | true =>
@@ -698,9 +723,9 @@ theorem step_inv_importing (s0 : St) (e : Cont) (hs0 : inLoop s0 = false) (hc : 
   have hminr : hasLoop Y1 = false → st.vm.minRegs = s0.vm.minRegs := by
     intro hl; exact h.minr (by simpa [hasLoop] using hl)
   cases ev with
-  | enter pre args c => exact enter_inv s0 e hs0 hc st _ h hY pre args c
-  | enterOp pre args c => exact enterOp_inv s0 e hs0 hc st _ h hY pre args c
-  | enterDirect pre ok => exact enterDirect_inv s0 e hs0 hc st _ h hY pre ok
+  | enter pre args c => exact enterChecked_inv s0 e hs0 hc st _ h hY pre args c
+  | enterOp pre args c => exact enterOpChecked_inv s0 e hs0 hc st _ h hY pre args c
+  | enterDirect pre ok => exact enterDirectChecked_inv s0 e hs0 hc st _ h hY pre ok
   | importEnd ok =>
     have herase : st.vm.placeholders.erase m = impMods Y1 ++ s0.vm.placeholders := by
       rw [hph]; simp
